@@ -111,10 +111,27 @@ func (cache *MemoryCache[K, V]) Set(key K, value V, ttlSec float64) error {
 		ttlDuration.Nanoseconds()
 
 	cache.mutex.Lock()
-	cache.cache[key] = ValueWrapper[V]{value, expirationTimeNano}
-	if cache.calculateCacheSize {
-		cache.currentCacheSize += itemSize
+	if cache.calculateCacheSize && cache.calculateSizeFunc != nil {
+		// The test above is only a cheap early exit. The decision is taken
+		// here, under the lock, so that concurrent writers cannot both take
+		// the last free space, and the size of an entry that is being
+		// replaced is given back.
+		replacedSize := float64(0)
+		if replaced, found := cache.cache[key]; found {
+			replacedSize = cache.calculateSizeFunc(key, replaced.value)
+		}
+		newCacheSize := cache.currentCacheSize - replacedSize + itemSize
+		if newCacheSize > cache.maxCacheSize {
+			currentCacheSize := cache.currentCacheSize
+			cache.mutex.Unlock()
+			return fmt.Errorf(
+				"Cannot add item: max cache size would be exceeded."+
+					" Current cache size is %v",
+				currentCacheSize)
+		}
+		cache.currentCacheSize = newCacheSize
 	}
+	cache.cache[key] = ValueWrapper[V]{value, expirationTimeNano}
 	cache.mutex.Unlock()
 
 	go func() {
